@@ -40,6 +40,137 @@ struct Relay {
 	uint32_t rnd = 12345;
 	uint64_t n_q = 0, n_refused = 0, n_dropped_size = 0, n_changed = 0;
 
+	// ---- re-delivery (C16, real client): the relay repeats ping / data queries it forwarded recently, as an impatient or
+	// load-balanced relay does: same or new DNS id, same or second upstream address, letter case re-randomised when the path
+	// randomises case anyway.  Answers to its own repeats are swallowed (only the first answer per forwarded id goes back).
+	// Which queries the property allows to be repeated is decided conservatively from what the relay has seen: `age` counts
+	// every ping/data answer seen since plus everything still unanswered.
+	struct Fwd { uint16_t out_id = 0, qtype = 0; refdns::Name name; bool opt = false, ping = false, answered = false, have_payload = false; uint64_t ans_seq = 0, t_fwd = 0; Bytes payload; };
+	struct Red { int of = 0; bool identical = true, expect_same = false, answered = false; };
+	bool redeliver = false; uint32_t p_red = 300;
+	sim::Addr back2;
+	std::vector<Fwd> fwd; std::map<uint16_t, int> fwd_by_id;
+	std::map<uint16_t, Red> red;
+	uint64_t ans_counter = 0; uint16_t next_red_id = 30000;
+	int n_red = 0, n_red_pending = 0, n_red_cache = 0, n_red_qmem = 0, n_red_case = 0, n_red_other = 0, n_red_sameid = 0, n_red_lastfrag = 0, n_cache_same = 0, n_red_answers = 0;
+	std::string red_violation;
+
+	static bool is_pingdata(const refdns::Name &n, bool &ping)
+	{
+		if (n.labels.empty() || n.labels[0].empty()) return false;
+		uint8_t c = n.labels[0][0];
+		ping = c == 'p' || c == 'P';
+		return ping || (c >= '0' && c <= '9') || (c >= 'a' && c <= 'f') || (c >= 'A' && c <= 'F');
+	}
+
+	void note_forward(uint16_t out_id, const refdns::Question &q, bool opt)
+	{
+		bool ping;
+		if (!redeliver || !is_pingdata(q.name, ping)) return;
+		Fwd f; f.out_id = out_id; f.qtype = q.type; f.name = q.name; f.opt = opt; f.ping = ping; f.t_fwd = sim::W.now;
+		fwd_by_id[out_id] = (int)fwd.size(); fwd.push_back(f);
+		plan();
+	}
+
+	// event-level choices come from the relay's own generator (seeded from the case's tape): a tunnel case consumes most of its
+	// tape for configuration and offers, and an exhausted tape would mean "never re-deliver"
+	uint32_t lbelow(uint32_t n) { return n ? ((rng() << 16) ^ rng()) % n : 0; }
+	bool lchance(uint32_t num, uint32_t den) { return lbelow(den) < num; }
+	size_t lpick(std::initializer_list<uint32_t> w) { uint32_t tot = 0; for (auto x : w) tot += x; uint32_t v = lbelow(tot); size_t i = 0; for (auto x : w) { if (v < x) return i; v -= x; i++; } return 0; }
+	void plan()
+	{
+		if (!lchance(p_red, 1000)) return;
+		uint64_t dt; switch (lpick({4, 3, 2, 1})) { case 0: dt = 0; break; case 1: dt = lbelow(3000); break; case 2: dt = lbelow(300000); break; default: dt = lbelow(3000000); break; }
+		if (dt == 0) fire(); else sim::W.after(dt, [this]() { fire(); });
+	}
+
+	void fire()
+	{
+		int inflight = 0;
+		for (auto &f : fwd) if (!f.answered) inflight++;
+		for (auto &r : red) if (!r.second.identical && !r.second.answered) inflight++;
+		std::vector<int> pendv, cache, qd, qp;
+		for (int i = (int)fwd.size() - 1; i >= 0; i--) {
+			const Fwd &f = fwd[i];
+			if (!f.answered) { if ((int)fwd.size() - i <= 3 && sim::W.now - f.t_fwd < 5000000) pendv.push_back(i); continue; }
+			int age = (int)(ans_counter - f.ans_seq) + inflight;
+			if (age < 4) cache.push_back(i);
+			if (f.ping ? age < 30 : age < 15) (f.ping ? qp : qd).push_back(i);
+		}
+		int window; std::vector<int> *src;
+		switch (lpick({4, 3, 3, 3})) { case 0: window = 1; src = &cache; break; case 1: window = 2; src = &qd; break; case 2: window = 2; src = &qp; break; default: window = 3; src = &pendv; break; }
+		if (src->empty()) { src = &cache; window = 1; }
+		if (src->empty()) { src = &pendv; window = 3; }
+		if (src->empty()) return;
+		int of = lchance(1, 2) ? src->back() : (*src)[lbelow((uint32_t)src->size())];
+		if (window == 2 && std::find(cache.begin(), cache.end(), of) != cache.end()) window = 1;
+		const Fwd f = fwd[of];
+		refdns::Name name = f.name; bool identical = true;
+		if (p.q.kase == 3 && lchance(1, 3)) {
+			for (auto &l : name.labels) for (auto &c : l) if (((c >= 'A' && c <= 'Z') || (c >= 'a' && c <= 'z')) && (rng() & 1)) c ^= 32;
+			identical = name.labels == f.name.labels;
+			if (!identical) n_red_case++;
+		}
+		bool newid = lchance(1, 2), other = lchance(1, 3);
+		int times = 1 + (int)lpick({6, 2, 1});
+		for (int n = 0; n < times; n++) {
+			uint16_t id = newid ? next_red_id++ : f.out_id;
+			if (newid) { Red r; r.of = of; r.identical = identical; r.expect_same = identical && window == 1 && f.have_payload; red[id] = r; }
+			else n_red_sameid++;
+			sim::Datagram o; o.src = other ? back2 : back; o.dst = server;
+			o.data = refdns::build_query(id, name.labels, f.qtype, f.opt && p.edns0);
+			sim::W.send(o);
+			n_red++;
+			if (window == 1) n_red_cache++; else if (window == 2) n_red_qmem++; else n_red_pending++;
+			if (other) n_red_other++;
+			if (getenv("VERIF_TRACE")) fprintf(stderr, "%10.6f relay re-delivers fwd#%d (%s, window %s) id=%u%s%s\n", sim::W.now / 1e6, of, f.ping ? "ping" : "data", window == 1 ? "cache" : (window == 2 ? "qmem" : "pending"), id, other ? " from second address" : "", identical ? "" : " case changed");
+		}
+	}
+
+	// A repeat with changed letter case that reaches the server while the original is still pending is a new query to the
+	// server; its answer may carry a downstream fragment that was never sent before.  The relay drops it like any answer to its
+	// own repeats; a single-fragment packet sent that way is not repeated by the server (best effort, C01), so such runs do not
+	// judge downstream loss.
+	int n_swallowed_data = 0;
+	void note_swallowed(const sim::Datagram &dg, int of)
+	{
+		refproto::Answer a;
+		if (!refproto::decode_answer(dg.data, a) || a.payload.size() <= 2) return;
+		if (fwd[of].have_payload && fwd[of].payload == a.payload) return;
+		n_swallowed_data++;
+	}
+
+	// returns true if the answer belongs to a re-delivery (and must be swallowed)
+	bool note_answer(const sim::Datagram &dg, const refdns::Msg &m)
+	{
+		if (!redeliver) return false;
+		bool ping;
+		if (m.q.size() != 1 || !is_pingdata(m.q[0].name, ping)) return false;
+		ans_counter++;
+		auto ir = red.find(m.id);
+		if (ir != red.end()) {
+			Red &r = ir->second; n_red_answers++;
+			if (!r.answered && r.expect_same) {
+				refproto::Answer a;
+				if (refproto::decode_answer(dg.data, a)) {
+					if (a.payload == fwd[r.of].payload) n_cache_same++;
+					else if (red_violation.empty()) red_violation = fmt("identical repeat (new id %u) of forwarded query #%d, one of the 4 most recently answered, got payload %s; the original answer carried %s", m.id, r.of, hexs(a.payload, 12).c_str(), hexs(fwd[r.of].payload, 12).c_str());
+				}
+			}
+			if (!r.identical) note_swallowed(dg, r.of);
+			r.answered = true;
+			return true;
+		}
+		auto it = fwd_by_id.find(m.id);
+		if (it == fwd_by_id.end()) return false;
+		Fwd &f = fwd[it->second];
+		if (f.answered) { note_swallowed(dg, it->second); return true; }   // second answer for the same id (a same-id repeat): swallowed
+		f.answered = true; f.ans_seq = ans_counter;
+		refproto::Answer a;
+		if (refproto::decode_answer(dg.data, a)) { f.have_payload = true; f.payload = a.payload; }
+		return false;
+	}
+
 	uint32_t rng() { rnd = rnd * 1103515245u + 12345u; return rnd >> 16; }   // per-relay LCG seeded from the case (fixed transformation with random case flips)
 
 	// returns false if the message must be refused
@@ -86,15 +217,18 @@ struct Relay {
 		sim::Datagram o; o.src = back; o.dst = server;
 		o.data = refdns::build_query(id, q.name.labels, q.type, opt && p.edns0);
 		sim::W.send(o);
+		note_forward(id, q, opt);
 	}
 
 	void from_server(const sim::Datagram &dg)
 	{
 		refdns::Msg m;
 		if (!refdns::parse(dg.data, m).empty() || !m.qr()) return;
+		if (note_answer(dg, m)) return;
 		auto it = pend.find(m.id);
 		if (it == pend.end()) return;
 		Pend pe = it->second;
+		if (redeliver && !fwd.empty()) plan();
 		Bytes b;
 		refdns::put16(b, pe.id); refdns::put16(b, (uint16_t)(m.flags | 0x0080));
 		refdns::put16(b, 1); refdns::put16(b, (uint16_t)m.answers.size()); refdns::put16(b, 0); refdns::put16(b, 0);
@@ -122,6 +256,7 @@ struct Relay {
 	{
 		sim::W.actors[front] = [this](const sim::Datagram &dg) { from_client(dg); };
 		sim::W.actors[back] = [this](const sim::Datagram &dg) { from_server(dg); };
+		if (redeliver) sim::W.actors[back2] = [this](const sim::Datagram &dg) { from_server(dg); };
 	}
 };
 
